@@ -50,3 +50,32 @@ impl<'a, F: IVP> HandlerProbe<'a, F> {
         self.0.into_payload()
     }
 }
+
+// ---------------------------------------------------------------------------------------------------------------
+// Control trace: a solver compiled with `--cfg ivp_verif` reports the scalar quantities its step-size / Newton /
+// status logic branches on, so that an external model of that logic can be replayed against real runs.
+
+use std::cell::RefCell;
+
+thread_local! {
+    static TRACE: RefCell<Option<Vec<(&'static str, Vec<Float>)>>> = const { RefCell::new(None) };
+}
+
+/// Start recording on this thread (clears any previous record).
+pub fn trace_start() {
+    TRACE.with(|t| *t.borrow_mut() = Some(Vec::new()));
+}
+
+/// Stop recording and return what was recorded.
+pub fn trace_take() -> Vec<(&'static str, Vec<Float>)> {
+    TRACE.with(|t| t.borrow_mut().take().unwrap_or_default())
+}
+
+/// Record one event; a no-op unless `trace_start` was called on this thread.
+pub fn trace(tag: &'static str, vals: &[Float]) {
+    TRACE.with(|t| {
+        if let Some(v) = t.borrow_mut().as_mut() {
+            v.push((tag, vals.to_vec()));
+        }
+    });
+}
